@@ -906,3 +906,259 @@ theorem step_recv_publish_accepted_shared (s : Server) (conn i : Nat) (dup retai
     Bool.not_true, Bool.false_eq_true, if_false, if_true, List.filter_cons, List.filter_nil, List.append_nil]
 
 end Mochi.Broker
+
+/-! ## The candidate map, declaratively: its members in terms of the shared entries of the index -/
+namespace Mochi.Topics
+
+theorem sharedGet_gatherSharedOne (m : List (Str × List (Str × Sub))) (cs : Str × Sub) (f c : Str) :
+    sharedGet (gatherSharedOne m cs) f c =
+      if f = cs.2.filter ∧ c = cs.1 then some cs.2 else sharedGet m f c := by
+  unfold gatherSharedOne
+  cases hg : assocGet m cs.2.filter with
+  | none =>
+    simp only
+    unfold sharedGet
+    rw [assocGet_append]
+    by_cases hf : f = cs.2.filter
+    · subst hf
+      rw [hg]
+      simp only [Option.none_or, assocGet, if_true, true_and]
+      by_cases hc : cs.1 = c
+      · simp [hc]
+      · have : ¬ c = cs.1 := fun e => hc e.symm
+        simp [hc, this]
+    · have hf' : ¬ cs.2.filter = f := fun e => hf e.symm
+      cases hm : assocGet m f with
+      | none => simp [assocGet, hf, hf']
+      | some mm => simp [hf]
+  | some mm =>
+    simp only
+    unfold sharedGet
+    rw [assocGet_assocSet]
+    by_cases hf : f = cs.2.filter
+    · subst hf
+      simp only [if_true, true_and, hg, assocGet_assocSet]
+    · simp [hf]
+
+/-- what the candidate map holds came from the initial map or from a writer filed under its own filter -/
+theorem sharedGet_fold_sound (L : List (Str × Sub)) (m : List (Str × List (Str × Sub))) (f c : Str) (sub : Sub)
+    (h : sharedGet (L.foldl gatherSharedOne m) f c = some sub) :
+    sharedGet m f c = some sub ∨ ((c, sub) ∈ L ∧ sub.filter = f) := by
+  induction L generalizing m with
+  | nil => exact Or.inl h
+  | cons e rest ih =>
+    rcases ih _ h with h' | ⟨h1, h2⟩
+    · rw [sharedGet_gatherSharedOne] at h'
+      split at h'
+      · rename_i hk
+        cases h'
+        exact Or.inr ⟨by rw [hk.2]; exact List.mem_cons_self, hk.1.symm⟩
+      · exact Or.inl h'
+    · exact Or.inr ⟨List.mem_cons_of_mem _ h1, h2⟩
+
+theorem sharedGet_fold_persist (L : List (Str × Sub)) (m : List (Str × List (Str × Sub))) (f c : Str)
+    (h : (sharedGet m f c).isSome = true) : (sharedGet (L.foldl gatherSharedOne m) f c).isSome = true := by
+  induction L generalizing m with
+  | nil => exact h
+  | cons e rest ih =>
+    apply ih
+    rw [sharedGet_gatherSharedOne]
+    split
+    · rfl
+    · exact h
+
+theorem sharedGet_fold_complete (L : List (Str × Sub)) (m : List (Str × List (Str × Sub))) (c : Str) (sub : Sub)
+    (h : (c, sub) ∈ L) : (sharedGet (L.foldl gatherSharedOne m) sub.filter c).isSome = true := by
+  induction L generalizing m with
+  | nil => cases h
+  | cons e rest ih =>
+    rcases List.mem_cons.mp h with h | h
+    · subst h
+      rw [List.foldl_cons]
+      apply sharedGet_fold_persist rest (gatherSharedOne m (c, sub))
+      rw [sharedGet_gatherSharedOne, if_pos ⟨rfl, rfl⟩]
+      rfl
+    · exact ih _ h
+
+theorem foldl_flatMap_eq {α β γ} (l : List α) (h : α → List β) (f : γ → β → γ) (acc : γ) :
+    l.foldl (fun m a => (h a).foldl f m) acc = (l.flatMap h).foldl f acc := by
+  induction l generalizing acc with
+  | nil => rfl
+  | cons a rest ih => rw [List.foldl_cons, ih, List.flatMap_cons, List.foldl_append]
+
+/-- the `(client, subscription)` pairs `gatherSharedSubscriptions` files, over a list of visits, in order -/
+def sharedWriters (ns : List Node) (topic : Str) (L : List Gather) : List (Str × Sub) :=
+  L.flatMap fun g =>
+    match g with
+    | .shared p =>
+      match getNode ns p with
+      | none => []
+      | some n => if topicDollar topic && wildStart p then [] else n.shared.flatMap (·.2)
+    | _ => []
+
+theorem shared_fold_eq_writers (ns : List Node) (topic : Str) (L : List Gather) (acc : Subscribers) :
+    (L.foldl (gatherStep ns topic) acc).shared = (sharedWriters ns topic L).foldl gatherSharedOne acc.shared := by
+  induction L generalizing acc with
+  | nil => rfl
+  | cons g rest ih =>
+    rw [List.foldl_cons, ih]
+    unfold sharedWriters
+    rw [List.flatMap_cons, List.foldl_append]
+    congr 1
+    cases g with
+    | subs p => simp only [gatherStep]; split <;> rfl
+    | inline p => simp only [gatherStep]; (repeat' split) <;> rfl
+    | shared p =>
+      simp only [gatherStep]
+      cases getNode ns p with
+      | none => rfl
+      | some n =>
+        simp only
+        split
+        · rfl
+        · exact foldl_flatMap_eq n.shared (·.2) gatherSharedOne acc.shared
+
+theorem mem_sharedWriters (ns : List Node) (topic : Str) (L : List Gather) (c : Str) (sub : Sub) :
+    (c, sub) ∈ sharedWriters ns topic L ↔
+      ∃ p, Gather.shared p ∈ L ∧ ∃ n, getNode ns p = some n ∧ (topicDollar topic && wildStart p) = false ∧
+        ∃ gm ∈ n.shared, (c, sub) ∈ gm.2 := by
+  unfold sharedWriters
+  rw [List.mem_flatMap]
+  constructor
+  · rintro ⟨g, hg, hm⟩
+    cases g with
+    | subs p => simp at hm
+    | inline p => simp at hm
+    | shared p =>
+      simp only at hm
+      cases hn : getNode ns p with
+      | none => rw [hn] at hm; simp at hm
+      | some n =>
+        rw [hn] at hm
+        simp only at hm
+        split at hm
+        · simp at hm
+        · rename_i hd
+          obtain ⟨gm, hgm, hc⟩ := List.mem_flatMap.mp hm
+          exact ⟨p, hg, n, hn, by simpa using hd, gm, hgm, hc⟩
+  · rintro ⟨p, hp, n, hn, hd, gm, hgm, hc⟩
+    refine ⟨Gather.shared p, hp, ?_⟩
+    simp only [hn, hd, Bool.false_eq_true, if_false]
+    exact List.mem_flatMap.mpr ⟨gm, hgm, hc⟩
+
+/-- a shared subscription of the index whose topic part matches: `sub`, held for client `c`, is stored at the
+    address and under the group its own filter determines (`$share/<group>/<topic filter>`), and the topic filter
+    `specMatch`es the topic -/
+def MatchingShared (x : Index) (topic c : Str) (sub : Sub) : Prop :=
+  sharedAt x (sharePath sub.filter) (shareGroup sub.filter) c = some sub ∧
+    specMatch (sharePath sub.filter) topic = true
+
+/-- **the candidate map, declaratively** (C01's scan exactness for shared subscriptions, for every structurally sound
+    index): the candidate entry keyed `f` holds `sub` for client `c` iff `sub` is a shared subscription of `c` in the
+    index with filter `f` whose topic part `specMatch`es the topic -/
+theorem shared_candidates_iff (x : Index) (hx : IdxOK x) (topic : Str) (hne : topic ≠ [])
+    (hnh : ∀ t ∈ splitLevels topic, t ≠ [hash]) (f c : Str) (sub : Sub) :
+    sharedGet (subscribers x topic).shared f c = some sub ↔ sub.filter = f ∧ MatchingShared x topic c sub := by
+  have hempty : topic.isEmpty = false := by cases topic <;> simp_all
+  have hsh : (subscribers x topic).shared =
+      (sharedWriters x.nodes topic (scanVisits x.nodes [] (splitLevels topic))).foldl gatherSharedOne [] := by
+    unfold subscribers
+    simp only [hempty, Bool.false_eq_true, if_false]
+    exact shared_fold_eq_writers _ _ _ _
+  have hscan : ∀ q, Gather.shared q ∈ scanVisits x.nodes [] (splitLevels topic) ↔
+      hasNode x.nodes q = true ∧ matchLv q (splitLevels topic) = true := by
+    intro q
+    rw [scan_iff Gather.shared mem_gatherAll_shared _ hx.pc _ (splitLevels_ne_nil topic) hnh]
+    simp
+  have hdr : ∀ q, dollarRule q topic = (topicDollar topic && wildStart q) := by
+    intro q
+    unfold dollarRule topicDollar wildStart
+    cases topic <;> simp
+  -- a writer is a matching shared entry of the index
+  have hwriter : ∀ c sub, (c, sub) ∈ sharedWriters x.nodes topic (scanVisits x.nodes [] (splitLevels topic)) ↔
+      MatchingShared x topic c sub := by
+    intro c sub
+    rw [mem_sharedWriters]
+    constructor
+    · rintro ⟨p, hp, n, hn, hd, gm, hgm, hc⟩
+      have hok := hx.keys n (getNode_mem hn)
+      have hat : sharedAt x p gm.1 c = some sub := by
+        unfold sharedAt sharedGet
+        rw [hn]
+        simp only [Option.bind_some]
+        rw [assocGet_of_mem _ _ _ hok.shared hgm]
+        exact assocGet_of_mem _ _ _ (hok.members gm hgm) hc
+      obtain ⟨_, h2, h3⟩ := hx.pos.shared p gm.1 c sub hat
+      refine ⟨by rw [h2, h3]; exact hat, ?_⟩
+      unfold specMatch
+      rw [h2, ((hscan p).mp hp).2, hdr, hd]
+      rfl
+    · rintro ⟨hat, hsm⟩
+      unfold sharedAt at hat
+      cases hn : getNode x.nodes (sharePath sub.filter) with
+      | none => rw [hn] at hat; cases hat
+      | some n =>
+        rw [hn] at hat
+        simp only [Option.bind_some] at hat
+        unfold sharedGet at hat
+        cases hg : assocGet n.shared (shareGroup sub.filter) with
+        | none => rw [hg] at hat; cases hat
+        | some mm =>
+          rw [hg] at hat
+          unfold specMatch at hsm
+          rw [hdr] at hsm
+          have hm : matchLv (sharePath sub.filter) (splitLevels topic) = true := by
+            cases h : matchLv (sharePath sub.filter) (splitLevels topic)
+            · rw [h] at hsm; cases hsm
+            · rfl
+          have hd : (topicDollar topic && wildStart (sharePath sub.filter)) = false := by
+            rw [hm] at hsm
+            cases h1 : topicDollar topic <;> cases h2 : wildStart (sharePath sub.filter) <;> simp [h1, h2] at hsm ⊢
+          refine ⟨_, (hscan _).mpr ⟨?_, hm⟩, n, hn, hd, (shareGroup sub.filter, mm), assocGet_mem _ _ _ hg,
+            assocGet_mem _ _ _ hat⟩
+          rw [hasNode_iff]
+          exact ⟨n, getNode_mem hn, getNode_path hn⟩
+  rw [hsh]
+  constructor
+  · intro h
+    rcases sharedGet_fold_sound _ _ _ _ _ h with h' | ⟨h1, h2⟩
+    · simp [sharedGet, assocGet] at h'
+    · exact ⟨h2, (hwriter c sub).mp h1⟩
+  · rintro ⟨hf, hms⟩
+    have hc := sharedGet_fold_complete _ [] c sub ((hwriter c sub).mpr hms)
+    rw [hf] at hc
+    cases hg : sharedGet (List.foldl gatherSharedOne []
+        (sharedWriters x.nodes topic (scanVisits x.nodes [] (splitLevels topic)))) f c with
+    | none => rw [hg] at hc; cases hc
+    | some sub' =>
+      rcases sharedGet_fold_sound _ _ _ _ _ hg with h' | ⟨h1, h2⟩
+      · simp [sharedGet, assocGet] at h'
+      · have hms' := (hwriter c sub').mp h1
+        -- same filter: same address and group, hence the same entry
+        have e : sub'.filter = sub.filter := h2.trans hf.symm
+        have a := hms'.1
+        rw [e, hms.1] at a
+        exact a.symm ▸ rfl
+
+/-- membership form: `(c, sub)` is a member of the candidate entry `g` -/
+theorem mem_candidate_iff (x : Index) (hx : IdxOK x) (topic : Str) (hne : topic ≠ [])
+    (hnh : ∀ t ∈ splitLevels topic, t ≠ [hash]) (c : Str) (sub : Sub) :
+    (∃ g ∈ (subscribers x topic).shared, (c, sub) ∈ g.2) ↔ MatchingShared x topic c sub := by
+  have hok := Mochi.Broker.subscribers_sharedOK x topic
+  constructor
+  · rintro ⟨g, hg, hc⟩
+    have : sharedGet (subscribers x topic).shared g.1 c = some sub := by
+      unfold sharedGet
+      rw [assocGet_of_mem _ _ _ hok.keys hg]
+      exact assocGet_of_mem _ _ _ (hok.members g hg) hc
+    exact ((shared_candidates_iff x hx topic hne hnh g.1 c sub).mp this).2
+  · intro h
+    have := (shared_candidates_iff x hx topic hne hnh sub.filter c sub).mpr ⟨rfl, h⟩
+    unfold sharedGet at this
+    cases hg : assocGet (subscribers x topic).shared sub.filter with
+    | none => rw [hg] at this; cases this
+    | some mm =>
+      rw [hg] at this
+      exact ⟨(sub.filter, mm), assocGet_mem _ _ _ hg, assocGet_mem _ _ _ this⟩
+
+end Mochi.Topics
